@@ -129,6 +129,10 @@ NODES = {
     # the class docstring's shape: a rate-limit style error answer carrying the optional backoff
     "ErrorIq-backoff": ("protocol_iq.protocolentities.iq_error.ErrorIqProtocolEntity", "in",
                         lambda: _n("iq", {"type": "error", "from": J, "id": "id1"}, [_n("error", {"text": "not-acceptable", "code": "406", "backoff": "3600"})]), ()),
+    # a media message of a kind the library does not know (the media layer builds the base-class entity for it and acknowledges it)
+    "MediaMessage-unlisted-kind": ("protocol_media.protocolentities.message_media.MediaMessageProtocolEntity", "in",
+                                   lambda: _n("message", {"from": J, "id": "id1", "t": "1400000000", "notify": "n", "offline": "0", "type": "media"}, [_n("proto", {"mediatype": "livelocation"}, None, b"\x0a\x02hi")]),
+                                   ("mediatype",)),
     "SubjectGroupsNotification": ("protocol_groups.protocolentities.notification_groups_subject.SubjectGroupsNotificationProtocolEntity", "in",
                                   lambda: _n("notification", {"notify": "WhatsApp", "id": "id1", "t": "1400000000", "participant": J, "from": G, "type": "w:gp2", "offline": "0"},
                                              [_n("subject", {"s_t": "1400000005", "s_o": J2, "subject": "new subj"})]), ()),
@@ -236,6 +240,20 @@ def h_sample_twice(ctx, name):
     if ent2 is None:
         return [("the parser returns an entity for the documented stanza", False)]
     return SC.node_obs("second", ent2.toProtocolTreeNode(), sym2)
+
+
+def h_big_list(ctx, which):
+    """lists at scale: an entity whose stanza carries 255 / 256 / 257 list members (a contact sync, a key request for a large group) goes
+    through the real binary codec and comes back with every member, in order"""
+    count = ctx.choice("members", [255, 256, 257])
+    if which == "GetSyncIq":
+        ent = _cls("protocol_contacts.protocolentities.iq_sync_get.GetSyncIqProtocolEntity")(["49159%07d" % i for i in range(count)])
+    elif which == "GetKeysIq":
+        ent = _cls("axolotl.protocolentities.iq_key_get.GetKeysIqProtocolEntity")(["49159%07d@s.whatsapp.net" % i for i in range(count)])
+    else:
+        raise ValueError(which)
+    out = ent.toProtocolTreeNode()
+    return SC.codec_contract_obs("codec", out) + SC.real_codec_roundtrip_obs("wire", out)
 
 
 # ---- classes without a parser: constructed with symbolic arguments ------------------------------------------------
@@ -388,6 +406,8 @@ def cases(tier):
         for r in roles:
             for v in variants:
                 cs.append(dict(name="sample[%s:%s,%s,%s]" % (name, C.__name__, r, v), fn=h_sample, args=(name, v, r), timeout_s=120, max_paths=3000, keep_samples=3))
+    for which in ("GetSyncIq", "GetKeysIq"):
+        cs.append(dict(name="big-list[%s,255..257 members]" % which, fn=h_big_list, args=(which,), timeout_s=300, keep_samples=3))
     for which in DIRECT:
         cs.append(dict(name="direct[%s]" % which, fn=h_direct, args=(which,), timeout_s=120, keep_samples=6))
     return cs
